@@ -4,6 +4,8 @@
 //
 // op lines (all stateless):
 //   pf  <fmt-hex> <arg>*          __printf through a variadic shim
+//   pfmin <fmt-hex> <arg>*        the same; only for the probes of the finding
+//                                 C06-star-width-int-min (the driver does not evaluate them)
 //   sp  <fmt-hex> <arg>*          igv_vsprintf into an exactly sized buffer
 //   spv <fmt-hex> <arg>*          igv_sprintf (the variadic entry point)
 //   fd  <limit> <fmt-hex> <arg>*  vfdprintf; write() under fdputc fails (-1)
@@ -371,7 +373,7 @@ static void run_op(const std::vector<std::string> &w, const std::string &, out &
     bool is_sn = op == "sn" || op == "vsn";
     if ((op == "fd" || op == "fdv" || is_sn) && w.size() > 1)
         limit = strtol(w[k++].c_str(), 0, 10); // fd: error limit; sn: buffer size
-    if (!(op == "pf" || op == "sp" || op == "spv" || op == "fd" || op == "iso" || op == "fdv" || is_sn) || w.size() <= k || (is_sn && (limit < 0 || limit > 4096)))
+    if (!(op == "pf" || op == "pfmin" || op == "sp" || op == "spv" || op == "fd" || op == "iso" || op == "fdv" || is_sn) || w.size() <= k || (is_sn && (limit < 0 || limit > 4096)))
     {
         o.result = "bad-op";
         return;
@@ -477,7 +479,7 @@ static void run_op(const std::vector<std::string> &w, const std::string &, out &
     if (ret != sink.calls)
         o.fail("return value " + std::to_string(ret) + " != " + std::to_string(sink.calls) + " characters emitted");
 
-    if (op == "pf")
+    if (op == "pf" || op == "pfmin") // pfmin: pf, kept apart for the driver (probes of C06-star-width-int-min)
         o.result = res(ret, out);
     else if (op == "sp" || op == "spv")
     {
@@ -1120,6 +1122,11 @@ static void gen(rng &r, const std::string &tier)
         }
     }
     gen_wrappers(r, th);
+    // probes of the recorded finding C06-star-width-int-min: `width = -width`
+    // on INT_MIN is a signed overflow (UBSan aborts); excluded from the stream
+    // everywhere else (classify: "width INT_MIN", generators keep `*` small)
+    printf("@F:C06-star-width-int-min pfmin 252a64 i:-2147483648 i:1\n");
+    printf("@F:C06-star-width-int-min pfmin 3c252d2a733e i:-2147483648 s:6162\n");
 }
 
 int main(int argc, char **argv) { return main_(argc, argv, gen, run_op); }
